@@ -218,8 +218,19 @@ def sequences(R, ctx):
     gendir.write_dir(d2, files, index)
     with open(os.path.join(d2, 'NOTES.fam0'), 'w') as fh:
         fh.write('notes of fam0')
+    # a third directory without any basis set: its index is `{}`, its family list `[]` - results that are falsy and mutable
+    d3 = os.path.join(tmp, 'third')
+    os.makedirs(d3)
+    json.dump({}, open(os.path.join(d3, 'METADATA.json'), 'w'))
+    shutil.copy(os.path.join(d2, 'REFERENCES.json'), os.path.join(d3, 'REFERENCES.json'))
     ref = Ref()   # forked before any API call of this process: empty caches, memoisation off
     calls = make_calls(bse, rng, d2)
+    empties = []
+    for fn in ('get_metadata', 'get_families', 'get_all_basis_names'):
+        empties += [(fn, [], dict(data_dir=d3)), (fn, [d3], {})]
+    empties += [('filter_basis_sets', [], dict(data_dir=d3)), ('filter_basis_sets', [], dict(data_dir=d3, substr='a')),
+                ('get_family_notes', ['fam0'], dict(data_dir=d3)), ('has_family_notes', ['fam0', d3], {})]
+    calls += empties
     for k, (key0, vs) in enumerate(info['bases']):
         calls.append(('get_basis', [key0], dict(data_dir=d2)))
         calls.append(('get_basis', [], dict(name=key0, data_dir=d2, version=vs[0])))
@@ -254,7 +265,9 @@ def sequences(R, ctx):
                     obj._BSEMemoize__memo.clear()
         memo.memoize_enabled = True
         nthreads = [1, 1, 2, 4, 8, 16][s % 6]
-        ops = [rng.choice(calls) for _ in range(ctx.n(40, 80))]
+        # half of the operations come from a small hot set, so that the same call is repeated (and its first result scrambled in between)
+        hot = rng.sample(calls, 5) + rng.sample(empties, 2)
+        ops = [rng.choice(hot) if rng.random() < 0.5 else rng.choice(calls) for _ in range(ctx.n(40, 80))]
         toggles = set(rng.sample(range(len(ops)), 3))
         if nthreads == 1:
             import random
